@@ -1,4 +1,4 @@
-* quick tier: 4 slots, 1 reader, 2 writers, no failing task
+\* quick tier: 4 slots, 1 reader, 2 writers, no failing task
 SPECIFICATION FairSpec
 CONSTANTS
   N = 4
